@@ -5,6 +5,7 @@
 package main
 
 import (
+	"bytes"
 	"crypto/sha256"
 	"encoding/json"
 	"fmt"
@@ -118,6 +119,17 @@ func runWorker(id, tier string, lo, hi int, out string) int {
 	}
 	start := time.Now()
 	debug.SetGCPercent(400)
+	if a := os.Getenv("VERIF_ANNOUNCE"); a != "" {
+		if f, err := os.Create(a); err == nil {
+			explore.Announce = func(s string) {
+				b := []byte(s)
+				if len(b) < 600 {
+					b = append(b, bytes.Repeat([]byte(" "), 600-len(b))...)
+				}
+				f.WriteAt(b, 0)
+			}
+		}
+	}
 	// hang / memory watchdog
 	go func() {
 		last, lastT := explore.Progress.Load(), time.Now()
@@ -299,9 +311,28 @@ func runParent(id, tier string) int {
 				}
 				cmd := exec.Command(bin, "worker", id, tier, strconv.Itoa(r.lo), strconv.Itoa(r.hi), out)
 				cmd.Stdout = os.Stderr
+				var errBuf bytes.Buffer
 				cmd.Stderr = os.Stderr
 				cmd.Env = append(os.Environ(), "GOMAXPROCS=2", fmt.Sprintf("VERIF_DEADLINE_UNIXMS=%d", deadline.UnixMilli()))
+				if scs[r.lo].Flavour == "race" {
+					// the race detector is the oracle: stop at the first report, which is then
+					// attributed to the execution the worker announced last
+					cmd.Stderr = &errBuf
+					cmd.Env = append(cmd.Env, "GORACE=halt_on_error=1 exitcode=66", "VERIF_ANNOUNCE="+out+".cur")
+				}
 				err := cmd.Run()
+				if ee, ok := err.(*exec.ExitError); ok && ee.ExitCode() == 66 && scs[r.lo].Flavour == "race" {
+					cur, _ := os.ReadFile(out + ".cur")
+					rep := errBuf.String()
+					mu.Lock()
+					merged.Failures = append(merged.Failures, &explore.Failure{Key: id + ":data-race:" + raceSite(rep), Msg: "ThreadSanitizer reported a data race in execution " + strings.TrimSpace(string(cur)), Scenario: firstField(string(cur)), Choices: parseChoices(string(cur)), Stack: rep, Devs: 0})
+					merged.Scenarios += r.hi - r.lo
+					mu.Unlock()
+					continue
+				}
+				if errBuf.Len() > 0 {
+					os.Stderr.Write(errBuf.Bytes())
+				}
 				var wo workerOut
 				b, rerr := os.ReadFile(out)
 				if rerr == nil {
@@ -442,6 +473,53 @@ func runParent(id, tier string) int {
 		return 1
 	}
 	return 0
+}
+
+// raceSite extracts the first two frames of the package under test from a race report.
+func raceSite(rep string) string {
+	var sites []string
+	for _, l := range strings.Split(rep, "\n") {
+		l = strings.TrimSpace(l)
+		if strings.HasPrefix(l, "github.com/gorilla/websocket.") {
+			if i := strings.LastIndex(l, "("); i > 0 {
+				l = l[:i]
+			}
+			l = strings.TrimPrefix(l, "github.com/gorilla/websocket.")
+			if len(sites) == 0 || sites[len(sites)-1] != l {
+				sites = append(sites, l)
+			}
+			if len(sites) == 2 {
+				break
+			}
+		}
+	}
+	if len(sites) == 0 {
+		return "outside-package"
+	}
+	return strings.Join(sites, "|")
+}
+
+func firstField(s string) string {
+	f := strings.Fields(s)
+	if len(f) == 0 {
+		return ""
+	}
+	return f[0]
+}
+
+func parseChoices(s string) []int {
+	i := strings.Index(s, "[")
+	j := strings.LastIndex(s, "]")
+	if i < 0 || j < i {
+		return nil
+	}
+	var r []int
+	for _, f := range strings.Fields(s[i+1 : j]) {
+		if v, err := strconv.Atoi(f); err == nil {
+			r = append(r, v)
+		}
+	}
+	return r
 }
 
 func runReplay(path string) int {
